@@ -385,7 +385,20 @@ class C15(Prop):
         return {"scheme": scheme, "st": st, "ui": ui, "hk": hk, "ht": ht, "pk": pk, "pt": pt, "path": path, "q": q,
                 "f": f, "grp": 100 + grp, "url": u}
 
+    # how the caller hands over its (Host-less) headers: not at all, one object re-used for every request of the
+    # history (a plain dict / an HTTPHeaderDict), or the same as the manager's default headers.  The derivations of
+    # C15 do not depend on it; a manager that writes what it derived for one URL into the caller's object would.
+    HDR_MODES = [None, "hd", None, "dict", "mgr-hd", None, "mgr-dict", "hd"]
+
     def cases(self, rng, tier, escalate=False):
+        k = 0
+        for c in self.cases_plain(rng, tier, escalate):
+            if c.get("kind") != "redirect" and "hdr" not in c:
+                k += 1
+                c = dict(c, hdr=self.HDR_MODES[k % len(self.HDR_MODES)])
+            yield c
+
+    def cases_plain(self, rng, tier, escalate=False):
         deep = tier == "thorough" or escalate
         yield from self.seed_cases()
         yield from self.systematic()
@@ -467,6 +480,9 @@ class C15(Prop):
                 hosts.append(val[1:] if val.startswith(b" ") else val)
         o.hosts = hosts
         o.raw = raw
+        # the caller's own (Host-less, opaque) header lines are passed through: not part of what C15 derives
+        for ln in getattr(self, "_caller_lines", ()):
+            raw = raw.replace(ln, b"", 1)
         o.line = (f"ok pool={o.pool} dial={enc(o.dial[0])} {o.dial[1]} tls={enc_list([x if x is not None else '~' for x in tls])} "
                   f"connect={enc(o.connect) if o.connect is not None else '~'} target={enc(o.target)} "
                   f"host={enc_list(hosts)} req={enc(raw)}")
@@ -500,6 +516,17 @@ class C15(Prop):
         res.bump("mode:" + ("direct" if mode[0] == "d" else ("proxy-" + mode[1].split(":")[0].lower() + ("-fwd" if mode[2] else ""))))
         with net.installed(fake_tls=True):
             kw = dict(num_pools=500, cert_reqs="CERT_NONE", ssl_context=self._ctx)
+            hm = case.get("hdr")
+            res.bump("hdr:" + str(hm))
+            shared = None
+            self._caller_lines = ()
+            if hm:
+                self._caller_lines = (b"X-Trace: 1\r\n", b"Accept-Language: en\r\n")
+                pairs = [("X-Trace", "1"), ("Accept-Language", "en")]
+                shared = urllib3.HTTPHeaderDict(pairs) if hm.endswith("hd") else dict(pairs)
+                if hm.startswith("mgr-"):
+                    kw["headers"] = shared
+            rkw = {"headers": shared} if (hm and not hm.startswith("mgr-")) else {}
             if mode[0] == "d":
                 lines.append("mgr d")
                 pm = PoolManager(**kw)
@@ -564,7 +591,7 @@ class C15(Prop):
                     del last[:]
                     lines.append(self.model_line("route", m["url"]))
                     try:
-                        pm.request("GET", m["url"], retries=False, redirect=False)
+                        pm.request("GET", m["url"], retries=False, redirect=False, **rkw)
                     except Exception as e:
                         out.append("err " + self.exc_name(e))
                         res.bump("result:err:" + self.exc_name(e))
